@@ -12,8 +12,8 @@ import (
 
 	"cosmossdk.io/log"
 	sdkmath "cosmossdk.io/math"
-	cmtproto "github.com/cometbft/cometbft/proto/tendermint/types"
 	cpctypes "github.com/EscanBE/evermint/v12/x/cpc/types"
+	cmtproto "github.com/cometbft/cometbft/proto/tendermint/types"
 	sdkdb "github.com/cosmos/cosmos-db"
 	sdk "github.com/cosmos/cosmos-sdk/types"
 	authtypes "github.com/cosmos/cosmos-sdk/x/auth/types"
@@ -354,16 +354,21 @@ func (w *World) BuildEthOp(op *Op) *Sent {
 			// the runtime code is given in Data
 			rt, _ = hex.DecodeString(op.Data)
 		}
-		data = InitCodeFor(rt, func(a *Asm) {
-			// constructor effect: slots 1..8 non-zero so that "clear" has something to refund
-			if op.Init == "clear" {
-				for i := 1; i <= 8; i++ {
-					a.Push(0xff).Push(i)
-					a.buf = append(a.buf, 0x55) // SSTORE
+		if op.Init == "rawinit" {
+			// the init code itself is given in Data (constructors that stop, log, self-destruct ... and leave no code)
+			data, _ = hex.DecodeString(op.Data)
+		} else {
+			data = InitCodeFor(rt, func(a *Asm) {
+				// constructor effect: slots 1..8 non-zero so that "clear" has something to refund
+				if op.Init == "clear" {
+					for i := 1; i <= 8; i++ {
+						a.Push(0xff).Push(i)
+						a.buf = append(a.buf, 0x55) // SSTORE
+					}
 				}
-			}
-		})
-		if op.Data != "" && op.Init != "raw" {
+			})
+		}
+		if op.Data != "" && op.Init != "raw" && op.Init != "rawinit" {
 			data = append(data, w.resolveData(op.Data)...)
 		}
 	} else {
